@@ -115,6 +115,14 @@ def template(tid, tmp=None):
                            YORIG=-60000., XCELL=12000., YCELL=4000.,
                            VGLVLS=vg, VGTOP=5000., GDNAM='VERIF', FTYPE=1),
             **arrs)
+    if tid == 'IM':   # the template of the bounded model spec/Ioapi_MC.tla
+        a = np.arange(3 * 2 * 2 * 2, dtype='f').reshape(3, 2, 2, 2)
+        return ioapi_base.from_arrays(
+            O3=a + 100, NO2=a + 200,
+            fileattrs=dict(SDATE=2011365, STIME=220000, TSTEP=10000,
+                           XORIG=-108., YORIG=-60., XCELL=12., YCELL=4.,
+                           VGLVLS=np.array([1, .5, 0], 'f'), VGTOP=5000.,
+                           GDNAM='VERIF', FTYPE=1))
     if tid == 'I2':   # boundary
         nt, nl, npm = 2, 2, 10
         b = np.arange(nt * nl * npm, dtype='f').reshape(nt, nl, npm)
@@ -253,6 +261,10 @@ def execute(arg):
                    'others': st.get('others', []), 'args': st.get('args', {}),
                    'res': 'ok', 'exc': '', 'new': 0}
             try:
+                if st['src'] > len(objs) or any(o > len(objs) for o in
+                                                st.get('others', [])):
+                    raise LookupError('an earlier step did not return the '
+                                      'object this step works on')
                 with np.errstate(all='ignore'):
                     new = call(objs, st, tmp)
                 if new is not None:
@@ -277,6 +289,36 @@ def execute(arg):
         shutil.rmtree(tmp, ignore_errors=True)
 
 
+def mc_programs(out, tier, prop):
+    """Model-check the bounded wrapper model (coherence, window rule), show
+    that dropping any wrapper's metadata rule is detected, and return the
+    emitted programs."""
+    from common import run_tlc, need_ok, unique
+    depth = 2 if tier == 'quick' else 3
+    r = need_ok(run_tlc('Ioapi_MC', workers=1, timeout=3000,
+                        env={'PNC_DEPTH': depth, 'PNC_EMIT': '1',
+                             'PNC_SKIP': ''}), 'Ioapi_MC')
+    out.add_tlc('Ioapi_MC depth %d: Inv_Coherent, Inv_WellFormed, '
+                'WindowKeeps + emission' % depth, r)
+    if r.violated:
+        out.model_violation(r, 'Ioapi_MC')
+    for skip in ('subset', 'renamevar', 'slice', 'apply', 'stack',
+                 'interpsigma'):
+        r2 = need_ok(run_tlc('Ioapi_MC', workers=4, timeout=600,
+                             env={'PNC_DEPTH': 2, 'PNC_EMIT': '0',
+                                  'PNC_SKIP': skip}), 'Ioapi_MC skip')
+        out.add_tlc('Ioapi_MC with the metadata rule of %s dropped '
+                    '(sharpness)' % skip, r2, 'must violate: %s' % r2.violated)
+        if not r2.violated:
+            raise Machinery('Ioapi_MC is not sharp for %s' % skip)
+    progs = unique([p for p in r.prints if isinstance(p, dict)
+                    and 'steps' in p])
+    if not progs:
+        raise Machinery('Ioapi_MC emitted nothing')
+    return [{'templates': [p['template']], 'steps': p['steps']}
+            for p in progs]
+
+
 def run_ioapi(out, tier, prop):
     rnd = random.Random(seed() * 7919 + int(prop[1:]))
     n = 500 if tier == 'quick' else 5000
@@ -289,6 +331,11 @@ def run_ioapi(out, tier, prop):
             progs.append(gen_program(rnd, depth, tmp))
     finally:
         shutil.rmtree(tmp, ignore_errors=True)
+    mcp = mc_programs(out, tier, prop)
+    out.cov['programs_emitted_by_tlc'] = len(mcp)
+    if tier == 'quick' and len(mcp) > 700:
+        mcp = rnd.sample(mcp, 700)
+    progs = mcp + progs
     args = [(i + 1, p) for i, p in enumerate(progs)]
     res = run_cases(execute, args, timeout=120, per_child=1)
     traces = []
